@@ -48,14 +48,14 @@ CHECKS = {
     note="Domain: WellFormed rows and strict per-stream FIFO (no overlap, no shared start instant), re-evaluated by TLC per record. " + TB,
     ref="DESIGN.md section 5 (C06)"),
  "C03": dict(
-    technique="TLA+ transcription of both endpoint comparators + stack machine (MC_CallStack) checked by TLC over every laminar family of <=3 (thorough 4) spans and every sort outcome + TLC trace validation of both builders and of CallGraph against the declarative tree (Trace_CallStack)",
-    text="TLC checks, for every properly nested family on the grid 0..3 with every id assignment, that the transcribed comparator is a strict total order, that a minimal endpoint always exists, that closes pop their own event (LIFO) and that the machine's parents/depths equal the declarative tree (innermost enclosing positive span; identical spans in file order; touching spans siblings; zero-duration events under a closed-span container); the d6 configurations make TLC exhibit the known non-transitive shape. 400/5000 generated thread families (dense tie grids and program-simulated threads) go through trace_call_stack.CallStackGraph, call_stack.CallStackGraph and CallGraph; TLC judges every returned (parent, depth). All 576 endpoint pairs of MC_Comparators are replayed into _less_than / compare_events (transcription binding).",
-    note="Known finding D6 (zero-duration event where one positive span ends and another begins) is suppressed only for that shape and the parent clauses; everything else is reported. " + TB,
+    technique="TLA+ model of the endpoint order and the stack machine of both call-stack builders (CallStack.tla LessKey, MC_CallStack) checked by TLC over every laminar family of <=4 (thorough 5) spans + replay of all 1054 small-model families into sort_events / the old builder + TLC trace validation of both builders and of CallGraph against the declarative tree (Trace_CallStack)",
+    text="TLC checks, for every properly nested family on the grid 0..3 (thorough 0..4) with every id assignment, including zero-duration events at instants where spans touch, that the key order both builders use is a strict total order, that closes pop their own event (LIFO), that the machine's parents/depths equal the declarative tree (innermost enclosing positive span; identical spans in file order; touching spans siblings; zero-duration events under a closed-span container) and that neighbouring endpoints satisfy the pairwise comparator the builder re-checks (AdjacentLess). The pairwise comparators that remain in the code are model-checked on the shapes where they are consistent; the d6 and trunc configurations make TLC exhibit the two repaired defects (D6: non-transitive comparator, D22: truncated span ends). 400/5000 generated thread families (dense tie grids, every tenth with quarter-microsecond durations, and program-simulated threads incl. two processes sharing a tid) go through trace_call_stack.CallStackGraph, call_stack.CallStackGraph and one CallGraph over all ranks; TLC judges every returned (parent, depth). All 576 endpoint pairs of MC_Comparators are replayed into _less_than / compare_events and all 1054 families of the small model into sort_events and the old builder (transcription binding).",
+    note="No known finding is left: D6 was repaired (55deb4b) after the key order had been model-checked. " + TB,
     ref="DESIGN.md section 5 (C03)"),
  "C13": dict(
     technique="TLA+ model of the bottom-up decoration passes and of backward re-parenting (MC_CallGraphAttrs) checked by TLC over all small forests + TLC trace validation of the stack columns and get_stack_of_node (Trace_CallStack/CallGraphAttrs)",
     text="TLC explores every forest of 3 (thorough 4) host nodes and 2 (3) device activities, every post-order of the passes and one optional re-parenting, with invariants AttrsMeaning and PartialCounts; 200/3000 generated multi-thread traces (autograd thread, backward annotations, shifted timestamps) are loaded through TraceAnalysis + CallGraph and TLC checks device parents, depth, height, the five kernel aggregates with their defaults, backward linking and get_stack_of_node against the returned tree.",
-    note="Host parents/backward linking inherit known finding D6 (shape-matched). Name classes are computed by the harness. " + TB,
+    note="Name classes are computed by the harness. " + TB,
     ref="DESIGN.md section 5 (C13)"),
  "C16": dict(
     technique="TLA+ call-graph model (MC_CallGraphAttrs, kernel descendants) checked by TLC + TLC trace validation of get_frequent_cuda_kernel_sequences against Instances/PatternOf/PatCount (CallGraphAttrs.tla)",
